@@ -205,6 +205,8 @@ def run(chk, prog):
     # ---- R3 -------------------------------------------------------------------------------------
     from . import C10 as c10
     sub = type(chk)("C10", chk.tier)
+    from .. import main as _main
+    _main.check_anchors("C10", prog)
     c10.run(sub, prog)
     r2 = [i for i in sub.instances if i["rule"] == "R2"]
     for i in r2:
